@@ -914,6 +914,45 @@ func c20Reproducers() []*c20Input {
 			Device: asaDev,
 			Files:  map[string]string{"router": "", "router.info": "{\"model\": \"ASA\",\n"}},
 	}
+	// Every word-prefix of ACL lines that use each keyword form once
+	// (object, object-group in every position, ports, ranges, ICMP type and
+	// code, log options), as Netspoc file and as device file: truncated
+	// lines are the cheapest malformed input and stay in every tier.
+	asaLines := []string{
+		"access-list x extended permit object svc1 any4 any4",
+		"access-list x extended permit object-group prot1 object-group src1 object-group dst1 object-group ports1",
+		"access-list x extended permit tcp host 10.1.1.1 eq 80 10.2.0.0 255.255.0.0 range 1000 2000 log 4 interval 100",
+		"access-list x extended deny icmp any4 object-group dst1 unreachable 3 log warnings",
+		"access-list x extended permit udp interface inside gt 1023 any6 lt 53 log disable",
+		"access-list x standard permit 10.1.1.0 255.255.255.0",
+	}
+	iosLines := []string{
+		" 10 permit object-group svc1 object-group src1 object-group dst1",
+		" 20 deny object svc1 any any",
+		" permit tcp host 10.1.1.1 eq 80 10.2.0.0 0.0.255.255 range 1000 2000 established log-input",
+		" deny icmp any host 10.1.1.1 unreachable 3 log",
+		" permit udp any gt 1023 any lt 53",
+	}
+	for _, line := range asaLines {
+		w := strings.Fields(line)
+		for k := 3; k < len(w); k++ {
+			text := strings.Join(w[:k], " ") + "\naccess-group x in interface inside\n"
+			l = append(l, &c20Input{Model: "ASA", Prog: "drc", Family: "R", Origin: fmt.Sprintf("repro:asa-acl-prefix:%s", strings.Join(w[3:k], "_")),
+				Device: asaDev, Files: map[string]string{"router": text}},
+				&c20Input{Model: "ASA", Prog: "drc", Family: "R", Origin: fmt.Sprintf("repro:asa-acl-prefix-on-device:%s", strings.Join(w[3:k], "_")),
+					Device: asaDev + text, Files: map[string]string{"router": "access-list x extended deny ip any4 any4\naccess-group x in interface inside\n"}})
+		}
+	}
+	for _, line := range iosLines {
+		w := strings.Fields(line)
+		for k := 1; k < len(w); k++ {
+			text := "ip access-list extended x\n " + strings.Join(w[:k], " ") + "\ninterface Ethernet0\n ip address 10.0.0.1 255.255.255.0\n ip access-group x in\n"
+			l = append(l, &c20Input{Model: "IOS", Prog: "drc", Family: "R", Origin: fmt.Sprintf("repro:ios-acl-prefix:%s", strings.Join(w[:k], "_")),
+				Device: "interface Ethernet0\n ip address 10.0.0.1 255.255.255.0\n", Files: map[string]string{"router": text}},
+				&c20Input{Model: "IOS", Prog: "drc", Family: "R", Origin: fmt.Sprintf("repro:ios-acl-prefix-on-device:%s", strings.Join(w[:k], "_")),
+					Device: text, Files: map[string]string{"router": "ip access-list extended x\n deny ip any any\ninterface Ethernet0\n ip address 10.0.0.1 255.255.255.0\n ip access-group x in\n"}})
+		}
+	}
 	// Regression inputs of repaired crash sites (known_findings.json,
 	// status fixed): they stay in every tier.
 	panos := func(groups, rules string) string {
